@@ -41,10 +41,10 @@ def VOp.path : VOp → Bytes
   | .put f _ => f.fullPath
 
 /-- the operation addresses the volume directory of the volume named `vol` (a type code is a byte; the arguments of `put`
-satisfy `PutArgs` and the file image has at most 256 chunk positions) -/
+satisfy `PutArgs`) -/
 def VOp.Root (vol : Bytes) (op : VOp) : Prop :=
   RootPath vol op.path ∧ (∀ p t a, op = .retype p (some t) a → t < 256) ∧
-  (∀ f t, op = .put f t → PutArgs f t ∧ f.end_ ≤ 256)
+  (∀ f t, op = .put f t → PutArgs f t)
 
 /-- one operation followed by `get_img()` (source as repaired): did it report success, the disk object afterwards -/
 def VOp.exec (op : VOp) (d : Disk) : Bool × Disk :=
@@ -136,8 +136,8 @@ theorem step_refines {d : Disk} (hs : SInv d) (op : VOp) (hroot : op.Root (volNa
     exact this
   | put f t =>
     simp only [VOp.path] at hnodes hnv
-    obtain ⟨pa, h256⟩ := hput f t rfl
-    have := exec_of_refines hs (put_refines' hs f t nm pa h256 hnodes hnm)
+    have pa := hput f t rfl
+    have := exec_of_refines hs (put_refines' hs f t nm pa hnodes hnm)
     simp only [VOp.exec, VOp.abs, nameOf_root hnodes]
     exact this
 
